@@ -28,6 +28,9 @@ type FaceModule struct {
 	nextFaceDatasetVersion uint64
 }
 
+// minMTU is the smallest MTU accepted from management: the link service needs room for its headers and some payload.
+const minMTU = 128
+
 func (f *FaceModule) String() string {
 	return "FaceMgmt"
 }
@@ -178,6 +181,13 @@ func (f *FaceModule) create(interest *spec.Interest, pitToken []byte, inFace uin
 			if *params.Mtu > defn.MaxNDNPacketSize {
 				mtu = defn.MaxNDNPacketSize
 			}
+			if mtu < minMTU {
+				transport.Close()
+				core.LogWarn(f, "MTU too small to carry a packet: ", mtu)
+				response = makeControlResponse(409, "ControlParameters are incorrect", nil)
+				f.manager.sendResponse(response, interest, pitToken, inFace)
+				return
+			}
 			transport.SetMTU(mtu)
 		}
 
@@ -267,6 +277,13 @@ func (f *FaceModule) create(interest *spec.Interest, pitToken []byte, inFace uin
 			mtu := int(*params.Mtu)
 			if *params.Mtu > defn.MaxNDNPacketSize {
 				mtu = defn.MaxNDNPacketSize
+			}
+			if mtu < minMTU {
+				transport.Close()
+				core.LogWarn(f, "MTU too small to carry a packet: ", mtu)
+				response = makeControlResponse(409, "ControlParameters are incorrect", nil)
+				f.manager.sendResponse(response, interest, pitToken, inFace)
+				return
 			}
 			transport.SetMTU(mtu)
 		}
@@ -395,6 +412,12 @@ func (f *FaceModule) update(interest *spec.Interest, pitToken []byte, inFace uin
 		if params.Mask != nil {
 			responseParams["Mask"] = uint64(*params.Mask)
 		}
+		areParamsValid = false
+	}
+
+	if params.Mtu != nil && *params.Mtu < minMTU {
+		// too small to carry a packet (link service header overhead)
+		responseParams["Mtu"] = uint64(*params.Mtu)
 		areParamsValid = false
 	}
 
